@@ -750,6 +750,9 @@ func coverageSummary(covDir, workDir string) []string {
 	if err != nil {
 		return []string{"no coverage profile"}
 	}
+	if keep := os.Getenv("VERIF_KEEPCOV"); keep != "" { // development aid: union coverage over all properties
+		os.WriteFile(filepath.Join(keep, fmt.Sprintf("cov-%d.txt", os.Getpid())), b, 0o644)
+	}
 	type ft struct{ hit, total int }
 	files := map[string]*ft{}
 	for _, line := range strings.Split(string(b), "\n") {
